@@ -218,6 +218,77 @@ def native_explore(logic, depth2_sample, seed=0):
     return stats
 
 
+RAW = {('Bool', True): True, ('Bool', False): False, ('AtomicProposition', 'p'): 'p', ('AtomicProposition', 'q'): 'q'}
+
+
+def build_mixed(M, t, raw):
+    """like build_native, but leaves are passed as raw Python str / bool when `raw` (the constructors wrap them themselves)"""
+    if t[0] in LEAF:
+        return RAW[t] if raw else build_native(M, t)
+    return getattr(M, t[0])(*[build_mixed(M, c, raw) for c in t[1:]])
+
+
+def native_cross(logic, skip_d15=True):
+    """operands built in ANOTHER language (depth 1, leaves given as objects or as raw str/bool) handed to <logic>'s constructors,
+    and raw str/bool leaves handed directly: the outcome must again be exactly formula-iff-documented / TypeError"""
+    M = importlib.import_module('pyModelChecking.' + logic)
+    leaves = [('Bool', True), ('AtomicProposition', 'p'), ('AtomicProposition', 'q')]
+    l1 = [(op, a) for op in UN for a in leaves] + [(op, a, b) for op in BI for a in leaves for b in leaves[:2]]
+    stats = dict(cases=0, built=0, rejected=0, problems=[])
+
+    def judge(t, mk):
+        stats['cases'] += 1
+        want = doc_member(logic, plain(t))
+        try:
+            f = mk()
+            got = True
+        except TypeError:
+            got = False
+        except Exception as e:
+            stats['problems'].append(('constructor raised %s' % type(e).__name__, t))
+            return
+        if got != (want is not None):
+            stats['problems'].append(('constructed=%s but documented kind=%s' % (got, want), t))
+        elif got:
+            stats['built'] += 1
+            # (an operand of a sub-language is an instance of this language's classes and is legitimately kept as it is,
+            #  so node modules are not compared here; shape and documented membership are)
+            if shape(f) != t:
+                stats['problems'].append(('built object has another shape: %s' % (f,), t))
+        else:
+            stats['rejected'] += 1
+    # raw leaves, same language, depth <= 2
+    for t1 in l1:
+        if all(o in M.alphabet for o in _ops(t1)):
+            judge(t1, lambda t1=t1: build_mixed(M, t1, True))
+        for op in UN:
+            t2 = (op, t1)
+            if all(o in M.alphabet for o in _ops(t2)):
+                judge(t2, lambda t2=t2: build_mixed(M, t2, True))
+    # foreign operands
+    for other in ('PL', 'CTL', 'LTL', 'CTLS'):
+        if other == logic:
+            continue
+        O = importlib.import_module('pyModelChecking.' + other)
+        for raw in (False, True):
+            for t1 in l1:
+                if not all(o in O.alphabet for o in _ops(t1)):
+                    continue
+                try:
+                    child = build_mixed(O, t1, raw)
+                except TypeError:
+                    continue
+                if logic == 'PL' and skip_d15 and doc_member('PL', plain(t1)) is None:
+                    stats['skipped_known_finding_D15'] = stats.get('skipped_known_finding_D15', 0) + 1
+                    continue          # known finding D15: PL operators keep temporal operands as they are
+                for op in [o for o in UN if o in M.alphabet]:
+                    judge((op, t1), lambda op=op, child=child: getattr(M, op)(child))
+                for op in [o for o in BI if o in M.alphabet]:
+                    judge((op, t1, leaves[1]), lambda op=op, child=child: getattr(M, op)(child, 'p' if raw else M.AtomicProposition('p')))
+                    judge((op, leaves[2], t1), lambda op=op, child=child: getattr(M, op)(M.AtomicProposition('q'), child))
+    return stats
+
+
 def _ops(t):
     if t[0] in LEAF:
         return []
